@@ -346,7 +346,7 @@ def ops(draw):
 @st.composite
 def rejects(draw):
     why = draw(st.sampled_from(["letter", "file0", "file256", "elem256", "elem4digit", "bit16", "bit3digit", "bfile4096", "bfile5digit", "io-elem", "s-elem",
-                                "io-file", "io-word", "letter-unicode", "digit-unicode"]))
+                                "io-file", "io-word", "letter-unicode", "digit-unicode", "float-bit", "tc-separator"]))
     ft = draw(st.sampled_from(["N", "B", "F", "L"]))
     f, e = draw(st.integers(1, 255)), draw(st.integers(0, 255))
     if why == "letter":
@@ -379,6 +379,13 @@ def rejects(draw):
         s = f"{draw(st.sampled_from(['\u0130', '\u0131', '\u017f', '\u212a']))}{draw(st.sampled_from(['', '7']))}:{e}"
     elif why == "digit-unicode":
         s = f"{ft}{draw(st.sampled_from(['\u0667', '\uff17', '\u0967']))}:{e}"
+    elif why == "float-bit":
+        # a floating-point element has no addressable bits
+        s = f"{draw(st.sampled_from(['F', 'f']))}{f}:{e}/{draw(st.integers(0, 15))}"
+    elif why == "tc-separator":
+        # the sub-element of a timer / counter is separated by a dot; anything else in its place names nothing
+        sub = draw(st.sampled_from(["ACC", "PRE", "EN", "DN", "acc"]))
+        s = f"{draw(st.sampled_from(['T', 'C']))}{f}:{draw(st.one_of(st.integers(0, 255), st.integers(10, 255)))}{draw(st.sampled_from(['', ' ', '{', 'x', ':', '0']))}{sub}"
     elif why == "io-elem":
         s = f"{draw(st.sampled_from(['I', 'O']))}:{draw(st.integers(256, 999))}"
     else:
